@@ -19,6 +19,34 @@ type slot struct {
 	t         *ToolSpec
 	singleton bool // every enclosing stage is a single node
 	tail      bool // the branching last node of a cyclic graph: stays a successful lambda
+	g         *Graph
+	stage     int
+}
+
+// convOK: may this lambda return a stream whose convert function panics?  Only where the panic
+// is certain to happen on a goroutine of the framework (the property's domain): the stage is
+// merged into its successors (two or more nodes: forwarding goroutines), or every successor
+// reads its input to the end inside its own task (executor goroutine).  Otherwise the panic
+// would fire on the caller's goroutine while it reads the result stream.
+func (s slot) convOK() bool {
+	if s.g == nil {
+		return false
+	}
+	if len(s.g.Stages[s.stage]) >= 2 {
+		return true
+	}
+	if s.stage+1 >= len(s.g.Stages) {
+		return false
+	}
+	for _, n := range s.g.Stages[s.stage+1] {
+		switch {
+		case n.Kind == "tools":
+		case n.Kind == "lam" && n.Flav != "t":
+		default:
+			return false
+		}
+	}
+	return true
 }
 
 type gen struct {
@@ -109,7 +137,7 @@ func (g *gen) graph(depthLeft int, singleton bool, top bool) *Graph {
 				if tail {
 					n.Flav = "i"
 				}
-				g.slots = append(g.slots, slot{n: n, singleton: single, tail: tail})
+				g.slots = append(g.slots, slot{n: n, singleton: single, tail: tail, g: gr, stage: s})
 			}
 			st = append(st, n)
 		}
@@ -138,7 +166,7 @@ func (g *gen) id() int {
 }
 
 func (engine) Generate(r *lib.Rng, tier string, i int) any {
-	g := &gen{r: r, tier: tier, convW: 0}
+	g := &gen{r: r, tier: tier, convW: 10}
 	depth := g.weighted(25, 35, 25, 15)
 	c := &Case{Par: []string{"invoke", "stream", "collect", "transform"}[r.Intn(4)]}
 	c.G = g.graph(depth, true, true)
@@ -147,6 +175,7 @@ func (engine) Generate(r *lib.Rng, tier string, i int) any {
 		nf = 4
 	}
 	perm := r.Perm(len(g.slots))
+	hasRerun, hasConv := false, false
 	for _, si := range perm {
 		if nf == 0 {
 			break
@@ -163,7 +192,12 @@ func (engine) Generate(r *lib.Rng, tier string, i int) any {
 			case 1:
 				s.t.Beh, s.t.ID = "panic", g.id()
 			default:
-				s.t.Beh, s.t.ID = "convpanic", g.id()
+				if hasRerun {
+					s.t.Beh, s.t.ID = "panic", g.id()
+				} else {
+					s.t.Beh, s.t.ID = "convpanic", g.id()
+					hasConv = true
+				}
 			}
 			continue
 		}
@@ -176,7 +210,12 @@ func (engine) Generate(r *lib.Rng, tier string, i int) any {
 		case 2:
 			n.Beh, n.Err, n.Flav = "item", g.errSpec(), "s"
 		case 3:
-			n.Beh = "rerun"
+			if hasConv { // converting an interrupt's checkpoint would read the panicking stream on the run loop's goroutine
+				n.Beh, n.Err = "fail", g.errSpec()
+			} else {
+				n.Beh = "rerun"
+				hasRerun = true
+			}
 		case 4:
 			if s.singleton {
 				n.Beh = "cancel"
@@ -184,7 +223,12 @@ func (engine) Generate(r *lib.Rng, tier string, i int) any {
 				n.Beh, n.Err = "fail", g.errSpec()
 			}
 		default:
-			n.Beh, n.ID, n.Flav = "convpanic", g.id(), "s"
+			if s.convOK() && !hasRerun {
+				n.Beh, n.ID, n.Flav = "convpanic", g.id(), "s"
+				hasConv = true
+			} else {
+				n.Beh, n.ID = "panic", g.id()
+			}
 		}
 	}
 	c.CancelBefore = r.Chance(4, 100)
